@@ -423,3 +423,168 @@ Proof.
   - split; [by apply eff_wf_no_eff|done].
   - split; [by eapply eff_wf_finish|done].
 Qed.
+
+Lemma dup_effect_close self p e : dup_effect self p = EOk e -> e_close e = [].
+Proof.
+  unfold dup_effect. destruct (length (pr_provs p) =? 1)%nat; [discriminate|].
+  destruct (fresh_matrix _ _ _ _) as [rows p2]. by intros [= <-].
+Qed.
+Lemma internal_effect_close md F self p e : internal_effect md F self p = EOk e -> e_close e = [].
+Proof.
+  unfold internal_effect, droppable_fwd, fresh_chan.
+  destruct (pr_body0 p); try discriminate; try (by intros [= <-]).
+  - destruct (call_body F f args); [|discriminate]. by intros [= <-].
+  - destruct (is_np md); by intros [= <-].
+Qed.
+
+(* ------------------------------------------------------------------ what a choice reads *)
+Definition movers (ch : choice) : list pid :=
+  match ch with Run p => [p] | Rendezvous s r => [s; r] | Control f t => [f; t] end.
+
+Definition act_chan (a : action) : list cid :=
+  match a with ASend k _ | ARecv k => [k] | _ => [] end.
+
+(* the channel cells the choice looks at *)
+Definition reads (md : exec_mode) (D : tenv) (c : config) (ch : choice) : list cid :=
+  match ch with
+  | Run p => match procs c !! p with Some pp => act_chan (action_of md D pp) | None => [] end
+  | Rendezvous s r => match procs c !! s with Some ps => act_chan (action_of md D ps) | None => [] end
+  | Control _ _ => []
+  end.
+
+(* the channels the choice closes (the receiver's providers, when the message is a forward request) *)
+Definition closes (md : exec_mode) (D : tenv) (c : config) (ch : choice) : list cid :=
+  match ch with
+  | Run p =>
+    match procs c !! p with
+    | Some pp =>
+      match action_of md D pp with
+      | ARecv k => match chans c !! k with
+                   | Some st => match ch_buf st with Some m => closes_of pp m | None => [] end
+                   | None => []
+                   end
+      | _ => []
+      end
+    | None => []
+    end
+  | Rendezvous s r =>
+    match procs c !! s, procs c !! r with
+    | Some ps, Some pr => match action_of md D ps with ASend _ m => closes_of pr m | _ => [] end
+    | _, _ => []
+    end
+  | Control f t => match procs c !! t with Some pt => cids_of (pr_provs pt) | None => [] end
+  end.
+
+(* footprint of a choice: the existing channels its step reads or writes (the fresh channels it
+   creates are in the acting process's private namespace and are dealt with by `ns_ok`) *)
+Definition footprint_ch (md : exec_mode) (D : tenv) (c : config) (ch : choice) : list cid :=
+  reads md D c ch ++ closes md D c ch.
+Definition footprint (md : exec_mode) (D : tenv) (c : config) (p : pid) : list cid :=
+  footprint_ch md D c (Run p).
+
+(* a choice depends on the configuration only through its movers and the cells it reads *)
+Lemma move_of_ext md D F c c' ch :
+  (forall p, p ∈ movers ch -> procs c' !! p = procs c !! p) ->
+  (forall k, k ∈ reads md D c ch -> chans c' !! k = chans c !! k) ->
+  move_of md D F c' ch = move_of md D F c ch.
+Proof.
+  intros Hp Hc. destruct ch as [self|s r|f t]; cbn [move_of movers reads] in *.
+  - rewrite Hp by set_solver. destruct (procs c !! self) as [p|]; [|done].
+    destruct (action_of md D p) as [| |k m|k| |k pv|w]; try done; cbn [act_chan] in Hc;
+      rewrite Hc by set_solver; done.
+  - rewrite !Hp by set_solver. destruct md; [done| |];
+      (destruct (bool_decide (s = r)); [done|];
+       destruct (procs c !! s) as [ps|]; [|done];
+       destruct (procs c !! r) as [pr|]; [|done];
+       destruct (action_of _ D ps) as [| |k m|k| |k pv|w]; try done;
+       destruct (action_of _ D pr) as [| |k' m'|k'| |k' pv'|w']; try done;
+       cbn [act_chan] in Hc; rewrite Hc by set_solver; done).
+  - rewrite !Hp by set_solver. done.
+Qed.
+
+Lemma reads_ext md D c c' ch :
+  (forall p, p ∈ movers ch -> procs c' !! p = procs c !! p) -> reads md D c' ch = reads md D c ch.
+Proof. intros Hp. destruct ch; cbn [reads movers] in *; try rewrite Hp by set_solver; done. Qed.
+
+Lemma closes_ext md D c c' ch :
+  (forall p, p ∈ movers ch -> procs c' !! p = procs c !! p) ->
+  (forall k, k ∈ reads md D c ch -> chans c' !! k = chans c !! k) ->
+  closes md D c' ch = closes md D c ch.
+Proof.
+  intros Hp Hc. destruct ch as [self|s r|f t]; cbn [closes movers reads] in *.
+  - rewrite Hp by set_solver. destruct (procs c !! self) as [p|]; [|done].
+    destruct (action_of md D p) as [| |k m|k| |k pv|w]; try done. cbn [act_chan] in Hc.
+    rewrite Hc by set_solver. done.
+  - rewrite !Hp by set_solver. done.
+  - rewrite !Hp by set_solver. done.
+Qed.
+
+(* ------------------------------------------------------------------ the move of an enabled choice *)
+Record move_wf (md : exec_mode) (D : tenv) (c : config) (ch : choice) (mv : move) : Prop := {
+  mwf_self : procs c !! mv_self mv = Some (mv_proc mv);
+  mwf_kill : forall s, mv_kill mv = Some s -> s ≠ mv_self mv /\ is_Some (procs c !! s);
+  mwf_movers : forall q, q ∈ movers ch <-> q = mv_self mv \/ mv_kill mv = Some q;
+  mwf_put : forall k, k ∈ put_chan (mv_put mv) -> k ∈ reads md D c ch;
+  mwf_reads : forall k, k ∈ reads md D c ch -> is_Some (chans c !! k);
+  mwf_eff : eff_wf (mv_self mv) (mv_proc mv) (mv_eff mv);
+  mwf_close : e_close (mv_eff mv) = closes md D c ch
+}.
+
+Lemma move_of_wf md D F c ch mv : move_of md D F c ch = MMove mv -> move_wf md D c ch mv.
+Proof.
+  destruct ch as [self|s r|f t]; cbn [move_of].
+  - destruct (procs c !! self) as [p|] eqn:Ep; [|discriminate].
+    destruct (action_of md D p) as [| |k m|k| |k pv|w] eqn:Ea; try discriminate.
+    + destruct (dup_effect self p) as [e|] eqn:Ee; [|discriminate]. intros [= <-].
+      split; cbn [mv_self mv_kill mv_put mv_proc mv_eff movers reads closes put_chan]; rewrite ?Ep, ?Ea; cbn [act_chan];
+        try done; try set_solver; eauto using dup_effect_wf, dup_effect_close.
+    + destruct (internal_effect md F self p) as [e|] eqn:Ee; [|discriminate]. intros [= <-].
+      split; cbn [mv_self mv_kill mv_put mv_proc mv_eff movers reads closes put_chan]; rewrite ?Ep, ?Ea; cbn [act_chan];
+        try done; try set_solver; eauto using internal_effect_wf, internal_effect_close.
+    + destruct (chans c !! k) as [[buf cl]|] eqn:Ek; [|discriminate]. cbn [ch_closed ch_buf].
+      destruct cl; [discriminate|]. destruct md; try discriminate. destruct buf; [discriminate|].
+      intros [= <-].
+      split; cbn [mv_self mv_kill mv_put mv_proc mv_eff movers reads closes put_chan]; rewrite ?Ep, ?Ea; cbn [act_chan];
+        try done; try set_solver.
+      * intros k' Hk'. apply elem_of_list_singleton in Hk' as ->. by rewrite Ek.
+      * apply eff_wf_no_eff. discriminate.
+    + destruct (chans c !! k) as [[buf cl]|] eqn:Ek; [|discriminate]. cbn [ch_closed ch_buf].
+      destruct buf as [m|].
+      * destruct (on_message self p m) as [e|] eqn:Ee; [|discriminate]. intros [= <-].
+        apply on_message_wf in Ee as [Hwf Hcl].
+        split; cbn [mv_self mv_kill mv_put mv_proc mv_eff movers reads closes put_chan]; rewrite ?Ep, ?Ea, ?Ek; cbn [act_chan ch_buf];
+          try done; try set_solver.
+        intros k' Hk'. apply elem_of_list_singleton in Hk' as ->. by rewrite Ek.
+      * destruct cl; [|discriminate].
+        destruct (on_message self p zero_msg) as [e|] eqn:Ee; [|discriminate]. intros [= <-].
+        apply on_message_wf in Ee as [Hwf Hcl].
+        split; cbn [mv_self mv_kill mv_put mv_proc mv_eff movers reads closes put_chan]; rewrite ?Ep, ?Ea, ?Ek; cbn [act_chan ch_buf];
+          try done; try set_solver.
+        intros k' Hk'. apply elem_of_list_singleton in Hk' as ->. by rewrite Ek.
+  - destruct md; [discriminate| |];
+      (destruct (bool_decide (s = r)) eqn:Esr; [discriminate|]; apply bool_decide_eq_false in Esr;
+       destruct (procs c !! s) as [ps|] eqn:Es; [|discriminate];
+       destruct (procs c !! r) as [pr|] eqn:Er; [|discriminate];
+       destruct (action_of _ D ps) as [| |k m|k| |k pv|w] eqn:Eas; try discriminate;
+       destruct (action_of _ D pr) as [| |k' m'|k'| |k' pv'|w'] eqn:Ear; try discriminate;
+       destruct (bool_decide (k = k')) eqn:Ekk; [|discriminate]; apply bool_decide_eq_true in Ekk; subst k';
+       destruct (chans c !! k) as [st|] eqn:Ek; [|discriminate];
+       destruct (ch_closed st); [discriminate|];
+       destruct (on_message r pr m) as [e|] eqn:Ee; [|discriminate]; intros [= <-];
+       apply on_message_wf in Ee as [Hwf Hcl];
+       split; cbn [mv_self mv_kill mv_put mv_proc mv_eff movers reads closes put_chan]; rewrite ?Es, ?Er, ?Eas; cbn [act_chan];
+         try done; try set_solver;
+       [ intros s' [= <-]; split; [done|by rewrite Es]
+       | intros k' Hk'; apply elem_of_list_singleton in Hk' as ->; by rewrite Ek ]).
+  - destruct (negb (is_np md) || bool_decide (f = t)) eqn:E1; [discriminate|].
+    apply orb_false_iff in E1 as [_ Eft]. apply bool_decide_eq_false in Eft.
+    destruct (procs c !! f) as [pf|] eqn:Ef; [|discriminate].
+    destruct (procs c !! t) as [pt|] eqn:Et; [|discriminate].
+    destruct (action_of md D pf) as [| |k m|k| |k pv|w]; try discriminate.
+    destruct (self_chan pt) as [k'|]; [|discriminate].
+    destruct (bool_decide (k = k') && polls_control md D pt); [|discriminate]. intros [= <-].
+    split; cbn [mv_self mv_kill mv_put mv_proc mv_eff movers reads closes put_chan]; rewrite ?Ef, ?Et;
+      try done; try set_solver.
+    + intros s' [= <-]. split; [done|by rewrite Ef].
+    + split; cbn; [set_solver|intros ? [= <-]; cbn; lia|set_solver].
+Qed.
